@@ -34,13 +34,17 @@ def obsOf (impl : Json) : Obs :=
   let nNS := natD errs "svc-not-started"
   let nOther := natD errs "svc-already-stopped" + natD errs "other"
   let totalCalls := ["logProvider", "recoveryProvider", "upkeepGetter", "eventsProvider", "pipeline", "stateUpdater", "resultStoreGC",
+    "typeGetter@dequeue", "typeGetter@metadata", "typeGetter@coordinator",
     "v2PerformLogs", "v2StaleLogs", "v2ActiveUpkeeps", "v2CoordEncoder", "v2ObsEncoder", "v2CheckUpkeep"].foldl
     (fun a k => a + natD calls k) 0
   let within := intD impl "resumedWithinNs"
-  { survived := boolD impl "survived" false, closeCalled := boolD impl "closeCalled" false, closeReturned := boolD impl "closeReturned" false,
+  { survived := boolD impl "survived" false,
+    crashed := (match impl.getObjVal? "crashed" with | .ok (.str p) => p != "" | _ => false),
+    hung := (match impl.getObjVal? "hung" with | .ok (.str p) => p != "" | _ => false), closeCalled := boolD impl "closeCalled" false, closeReturned := boolD impl "closeReturned" false,
     closedAtNs := natD impl "closedAtNs",
     closePanicked := (match impl.getObjVal? "closePanic" with | .ok (.str p) => p != "" | _ => false),
     firstCloseBad := (match impl.getObjVal? "firstClose" with | .ok (.obj kvs) => !kvs.isEmpty | _ => false),
+    roundsBlocked := natD impl "roundsBlocked",
     progress := natD impl "progress",
     errNotRunning := nNR, errNotStarted := nNS, errOther := nOther,
     leakedServiceStart := natD leaked "serviceStart", leakedService := natD leaked "service",
@@ -252,7 +256,7 @@ def handle (input impl : Json) : R Reply := do
     (!panicClauseApplies cs o || (o.resumed == m.resumed && o.othersTicked == m.othersTicked && (decide (cs.work = 0) || o.pipelineDone == m.pipelineDone)))
   let (trAcc, trRej, trInc, trMsg) ← checkTraces impl
   let traced := trAcc + trRej + trInc > 0
-  let agree := o.survived == m.survived && (died || agreeLive) && decide (trRej = 0)
+  let agree := o.survived == m.survived && o.hung == m.hung && (died || agreeLive) && decide (trRej = 0)
   let sm := spec cs m
   let si := spec cs o
   let fail := if si then "" else explain cs o
@@ -260,6 +264,11 @@ def handle (input impl : Json) : R Reply := do
   let tags :=
     ["scenario:" ++ cs.scenario] ++
     (if !traced then ["untraced"] else if trRej > 0 then ["trace-rejected"] else if trInc > 0 then ["trace-search-inconclusive"] else ["trace-accepted"]) ++
+    (match input.getObjVal? "shape" with | .ok (.str h) => if h != "" then ["shape:" ++ h] else [] | _ => []) ++
+    (if boolD input "rounds" false then ["rounds"] else []) ++
+    (if boolD input "repeatWork" false then ["repeat-work"] else []) ++
+    (match input.getObjVal? "runner" with | .ok (.obj _) => ["runner-config"] | _ => []) ++
+    (match input.getObjVal? "offchain" with | .ok (.str h) => if h != "" then ["offchain-config"] else [] | _ => []) ++
     (if natD input "reuse" > 0 then [s!"factory-reuse:{natD input "reuse"}"] else []) ++
     (match input.getObjVal? "family" with | .ok (.str "v2") => ["family:v2"] | _ => []) ++
     (match input.getObjVal? "holdSite" with | .ok (.str h) => if h != "" then ["hold-site:" ++ h] else [] | _ => []) ++
@@ -270,7 +279,7 @@ def handle (input impl : Json) : R Reply := do
     (if cs.scenario == "panic-close" && decide (closeAt < cs.coolDownNs) then ["close-soon-after-panic"] else []) ++
     (if natD input "work" > 0 then ["work-in-flight"] else []) ++
     (if cs.scenario == "close" then ["close-at:" ++ closeAtBucket closeAt] else [])
-  let key := s!"r{natD input "reuse"}/{natD input "reuseRunNs"}/{natD input "reuseGapNs"}/{(asStr (fieldD input "reuseCfg" (.str ""))).toOption.getD ""}|{(asStr (fieldD input "family" (.str ""))).toOption.getD ""}|{(asStr (fieldD input "holdSite" (.str ""))).toOption.getD ""}|{natD input "holdNs"}|{natD input "holdAtCall"}|{cs.scenario}|{cs.panicSite}|{closeAtBucket closeAt}|y{natD input "yields"}|p{natD input "preYields"}|w{natD input "work"}|l{cs.latencyNs}|a{natD input "panicAtCall"}c{natD input "panicCount"}|{closeAt}|nr{o.errNotRunning}ns{o.errNotStarted}"
+  let key := s!"{(asStr (fieldD input "shape" (.str ""))).toOption.getD ""}/{boolD input "repeatWork" false}/{boolD input "rounds" false}/{(fieldD input "runner" .null).compress}/{(asStr (fieldD input "offchain" (.str ""))).toOption.getD ""}|r{natD input "reuse"}/{natD input "reuseRunNs"}/{natD input "reuseGapNs"}/{(asStr (fieldD input "reuseCfg" (.str ""))).toOption.getD ""}|{(asStr (fieldD input "family" (.str ""))).toOption.getD ""}|{(asStr (fieldD input "holdSite" (.str ""))).toOption.getD ""}|{natD input "holdNs"}|{natD input "holdAtCall"}|{cs.scenario}|{cs.panicSite}|{closeAtBucket closeAt}|y{natD input "yields"}|p{natD input "preYields"}|w{natD input "work"}|l{cs.latencyNs}|a{natD input "panicAtCall"}c{natD input "panicCount"}|{closeAt}|nr{o.errNotRunning}ns{o.errNotStarted}"
   pure { agree := agree, specModel := sm, specImpl := si,
          diff := if agree then "" else if trRej > 0 then s!"trace rejected ({trRej} of {trAcc + trRej + trInc} recoverers): {trMsg}" else s!"model: survived={m.survived} closeReturned={m.closeReturned} notRunning={m.errNotRunning} notStarted={m.errNotStarted} serviceStart={m.leakedServiceStart} service={m.leakedService} bubbleEnded={m.bubbleEnded} resumed={m.resumed}; impl: survived={o.survived} closeReturned={o.closeReturned} notRunning={o.errNotRunning} notStarted={o.errNotStarted} serviceStart={o.leakedServiceStart} service={o.leakedService} bubbleEnded={o.bubbleEnded} resumed={o.resumed} errOther={o.errOther}",
          fail := fail, nontrivial := true, tags := tags, key := key }
